@@ -741,7 +741,13 @@ func runCaseAttempt(g *dag.Graph, ops []op, seed uint64, attempt int) {
 				run.Count("watchdog-stall")
 				if attempt < 2 {
 					runCaseAttempt(g, ops, seed, attempt+1)
+					return
 				}
+				// three runs of the same history exceeded the watchdog and none of the fresh
+				// replays did: not a machine stall any more, an intermittent (e.g. iteration-order
+				// dependent) hang; the case is reported, never dropped silently
+				hangs++
+				fail(kind+"-hang-intermittent", fmt.Sprintf("op %d (%s) exceeded the watchdog in 3 runs of the history, the fresh replays returned", oi, o))
 				return
 			}
 			hangs++
@@ -853,11 +859,7 @@ func runCaseAttempt(g *dag.Graph, ops []op, seed uint64, attempt int) {
 	// the same history again on fresh stores: only Go's map iteration order differs between
 	// the runs, so the observable outcome must be identical
 	if !failed {
-		reps := repeats
-		if !run.Thorough() && run.Evaluations%2 == 0 {
-			reps = 1
-		}
-		for k := 1; k < reps; k++ {
+		for k := 1; k < repeats; k++ {
 			again, hung := execOnly(g, ops)
 			if hung {
 				// reproduce before reporting (see above)
@@ -1442,6 +1444,31 @@ func exhaustive() {
 	}
 }
 
+// coverageFloors: a run whose streams silently produced (almost) nothing must not pass.
+func coverageFloors(n int) {
+	if n < 500 || hangs > 0 || run.OracleFails > 0 {
+		return
+	}
+	need := map[string]int{"op:delete": n / 4, "op:gc": n / 4, "op:tag": n / 2, "op:push": 2 * n, "op:stray": n / 20, "repetitions": n / 2}
+	if keepLiveDigests {
+		need["op:reopen"] = n / 20
+	}
+	if run.Thorough() {
+		need["exhaustive:histories"] = 10000
+	}
+	var missing []string
+	for k, v := range need {
+		if run.Dist[k] < v {
+			missing = append(missing, fmt.Sprintf("%s=%d<%d", k, run.Dist[k], v))
+		}
+	}
+	if len(missing) > 0 {
+		sort.Strings(missing)
+		fmt.Fprintln(os.Stderr, "C09 harness: coverage floor not reached:", strings.Join(missing, " "))
+		os.Exit(3)
+	}
+}
+
 func main() {
 	run = common.Start("C09")
 	run.Rule = "distinct (graph, history) pairs in which a Delete cascaded beyond its target or a GC removed at least one blob"
@@ -1485,6 +1512,7 @@ func main() {
 	if os.Getenv("C09_ONLY_EXHAUSTIVE") != "" { // manual testing aid
 		n = 0
 	}
+	defer coverageFloors(n)
 	for i := 0; i < n && hangs < 2; i++ {
 		cs := run.Rand.U64()
 		g, ops := genCase(common.NewRand(cs))
